@@ -1049,7 +1049,10 @@ impl<Writer: Write> Mp4Writer<Writer> {
     fn compute_interleave_schedule(&self) -> Vec<(u64, TrackKind, usize)> {
         let mut schedule: Vec<(u64, TrackKind, usize)> = Vec::new();
         for (idx, sample) in self.video_samples.iter().enumerate() {
-            schedule.push((sample.pts, TrackKind::Video, idx));
+            // Order video by decode time: chunk offsets are assigned in schedule order and the
+            // sample tables are in decode order, so reordered (B-frame) streams must not be
+            // sorted by presentation time here.
+            schedule.push((sample.dts, TrackKind::Video, idx));
         }
         for (idx, sample) in self.audio_samples.iter().enumerate() {
             schedule.push((sample.pts, TrackKind::Audio, idx));
